@@ -1,5 +1,7 @@
 import TongoProofs.C09
 import TongoGen.LiteApi
+import TongoGen.TlLength
+import TongoProofs.Lemmas.GenTiesB
 /-! Property C10 — the lite-server bindings speak exactly the wire format of `lite_api.tl`.
 
 `Gen.liteApi` is the schema of the CURRENT `liteclient/lite_api.tl` (translator X3, regenerated on every run, tied to
@@ -187,6 +189,22 @@ theorem handwritten_types_spec :
     simp [encode, ha, accountIdDecl, encodeFields, present?, hw, hl, accountIdTL]
   · intro wc shard seqno root file hw hs hq hr hf
     simp [encode, hb, blockIdExtDecl, encodeFields, present?, hw, hs, hq, hr, hf, blockIdExtTL]
+
+/-! ### the length prefix of `bytes`/`string`: regenerated Go code against the model -/
+
+/-- tie (X4, regenerated from tl/encoder.go / liteclient/client.go): the Go function `tl.EncodeLength`, translated to
+`BitVec 64` arithmetic on every run (`Gen.TlLength.EncodeLength`), yields on every non-negative `int` exactly the bytes
+of the model's `Tl.encLen` (one byte below 254, otherwise `254` and the three low bytes little-endian), which is the
+length prefix used by `encBytes` in every theorem above. -/
+theorem gen_EncodeLength (n : Nat) (h : n < 2 ^ 63) :
+    Gen.TlLength.EncodeLength (BitVec.ofNat 64 n) = (Tl.encLen n).map UInt8.toBitVec :=
+  GenTies.gen_EncodeLength n h
+
+/-- tie (X4, regenerated from tl/encoder.go / liteclient/client.go): liteclient's private copy `encodeLength` is the
+same function as `tl.EncodeLength` on every `int` (hence also tied to `Tl.encLen` by `gen_EncodeLength`). -/
+theorem gen_encodeLength_liteclient (i : BitVec 64) :
+    Gen.TlLength.encodeLengthLiteclient i = Gen.TlLength.EncodeLength i :=
+  GenTies.gen_encodeLength_liteclient i
 
 /-! ### non-vacuity (tests on literals) -/
 
